@@ -7,7 +7,7 @@
    numbers the environment had ignored (pre), every sequence of runs of main() with well nested flows, every answer list
    and every schedule of OS-level arrivals and steps (oreach pre s, see ProofsDisp.v).                                  *)
 Require Import V.Lib.Base V.C18.Model V.C18.Proofs V.C18.ProofsTok V.C18.ProofsThm V.C18.ProofsRun.
-Require Import V.C18.Disp V.C18.ProofsDisp V.C18.ProofsDispThm.
+Require Import V.C18.Disp V.C18.ProofsDisp V.C18.ProofsDispThm V.C18.ProofsShut.
 Require V.Gen.Consts_C18.
 Local Open Scope Z_scope.
 
@@ -634,3 +634,107 @@ Qed.
 (* the direct-processSignal cases are unchanged *)
 Example c18_run_case_direct : forall m r, (m <? 0) = false -> Disp.run_case (m :: r) = run_direct (m :: r).
 Proof. intros m r H. unfold Disp.run_case. rewrite H. reflexivity. Qed.
+
+(* ---- 8. shutdown(bool) blocks delivery for good - also during the error report of shutdown(true) ----
+     void Application::shutdown(bool hasError) { fetch_and_inc(blocked_); killAlarm(); if (hasError) { onUnhandledException(); } shutdown(); }
+   main():  try { setup(); run(); shutdown(false); } catch (...) { shutdown(true); }
+   The increment is the LAST block / unblock operation of the main flow of a run (FCore Block with nothing of the core flow behind it);
+   the error report of shutdown(true) - an onUnhandledException() override that returns (the default one exits) - is the main-flow step
+   FReport behind it: application code in front of which, and during which, signals arrive (scheduling-point code 16).
+   [shut s] = the main flow has executed its last operation and holds at least one block (1 <= depth): nothing can release it.
+   [delivered c] = the arrivals handed to the callback so far (the FDelivered entries of the fate list). *)
+
+(* for EVERY schedule ds of arrivals and steps from a state in which shutdown has started: the application still holds a block
+   (c18_never_while_blocked: depth > 0), blocked_ >= 1, no activation is about to enter / inside the callback, no callback entry or exit
+   is the next step, NOTHING is handed to the callback (the list of deliveries does not grow), and the increment of every arrival sends
+   it to the remember / discard path (HTest) *)
+Theorem c18_shutdown_blocks_for_good : forall pre s ds,
+  oreach pre s -> shut s ->
+  let s' := oexec ds s in
+  oreach pre s' /\ shut s' /\
+  1 <= blocked (core s') /\
+  Forall (fun f => in_cb f = false) (stack (core s')) /\ cb_enter (core s') = false /\ cb_exit (core s') = false /\
+  delivered (core s') = delivered (core s) /\
+  (forall f rest, stack (core s') = f :: rest -> h_pc f = HInc ->
+     exists f', stack (step true 0 (core s')) = f' :: rest /\ h_pc f' = HTest /\ h_sig f' = h_sig f /\ h_id f' = h_id f).
+Proof. exact shutdown_blocks_for_good. Qed.
+Print Assumptions c18_shutdown_blocks_for_good.
+
+(* the step that starts it: the main flow (no handler in progress) executes the increment of its last core operation - shutdown(false)
+   at the end of run() or shutdown(true) from main()'s catch; whatever blocks the flow already holds *)
+Theorem c18_shutdown_starts : forall pre s fl, oreach pre s -> hs s = [] -> at_op (core s) = true ->
+  ops (core s) = [Block] -> oflow (reg s) = OCore :: fl ->
+  shut (ostep 0 s) /\ blocked (core (ostep 0 s)) = blocked (core s) + 1 /\ fates (core (ostep 0 s)) = fates (core s) /\
+  oflow (reg (ostep 0 s)) = fl /\ hs (ostep 0 s) = [] /\ dsp (ostep 0 s) = dsp s.
+Proof. exact shutdown_starts. Qed.
+Print Assumptions c18_shutdown_starts.
+
+(* from the start of shutdown(true | false) to the end of the run (any number of further steps and arrivals, incl. all of the error
+   report): no callback entry, nothing handed to the callback *)
+Theorem c18_no_callback_from_shutdown_to_end_of_run : forall pre s fl ds, oreach pre s -> hs s = [] -> at_op (core s) = true ->
+  ops (core s) = [Block] -> oflow (reg s) = OCore :: fl ->
+  let s' := oexec (0 :: ds) s in
+  oreach pre s' /\ 1 <= depth (core s') /\ 1 <= blocked (core s') /\
+  Forall (fun f => in_cb f = false) (stack (core s')) /\ cb_enter (core s') = false /\ cb_exit (core s') = false /\
+  delivered (core s') = delivered (core s).
+Proof. exact no_callback_from_shutdown. Qed.
+Print Assumptions c18_no_callback_from_shutdown_to_end_of_run.
+
+(* the error report is a scheduling point of its own (code 16) whose step - the report returns - changes nothing of the signal state *)
+Theorem c18_error_report_step : forall s fl, hs s = [] -> at_op (core s) = true -> oflow (reg s) = OReport :: fl ->
+  ocode s = 16 /\ core (ostep 0 s) = core s /\ dsp (ostep 0 s) = dsp s /\ hs (ostep 0 s) = [] /\
+  acc (ostep 0 s) = acc s /\ drp (ostep 0 s) = drp s /\
+  oflow (reg (ostep 0 s)) = fl /\ inst (reg (ostep 0 s)) = inst (reg s) /\ alarm_set (reg (ostep 0 s)) = alarm_set (reg s).
+Proof. exact error_report_step. Qed.
+Print Assumptions c18_error_report_step.
+
+(* case op 10 = "run() throws": the increment, then the report, and nothing of the flow after it *)
+Example c18_shutdown_error_decoding :
+  decode_fops [10] = [FCore Block; FReport] /\ decode_fops [1; 10; 3] = [FCore Block; FCore Block; FReport] /\
+  core_of (decode_fops [1; 10; 3]) = [Block; Block] /\ bal 0 (core_of (decode_fops [1; 10; 3])) = true.
+Proof. repeat split; reflexivity. Qed.
+
+(* run() throws at once; INSIDE the error report (code 16, blocked_ = 1) signal 1 arrives through sigHandler: remembered (pending_ = 1),
+   not delivered; then signal 2: discarded by the application object; the report returns; the run is over with blocked_ = 1, pending_ = 1,
+   all handlers re-installed, nothing ever handed to the callback.  s1 satisfies the hypothesis [shut] of c18_shutdown_blocks_for_good,
+   s0 the hypotheses of c18_shutdown_starts / c18_no_callback_from_shutdown_to_end_of_run, s1 those of c18_error_report_step. *)
+Example ex_os_shutdown_error_report :
+  let s0 := os_main false (boot nopre) reg0 (decode_fops [10]) [] [] in
+  let s1 := oexec [0] s0 in
+  let s2 := oexec [1; 0; 0; 0; 0; 0; 0] s1 in
+  let s3 := oexec [2; 0; 0; 0; 0; 0] s2 in
+  let s4 := oexec [0] s3 in
+  oreach nopre s0 /\ hs s0 = [] /\ at_op (core s0) = true /\ ops (core s0) = [Block] /\ oflow (reg s0) = [OCore; OReport] /\
+  oreach nopre s1 /\ shut s1 /\ at_op (core s1) = true /\ oflow (reg s1) = [OReport] /\
+  map ocode [s0; s1; s2; s3; s4] = [7; 16; 16; 16; 0] /\
+  blocked (core s2) = 1 /\ pending (core s2) = 1 /\ fates (core s2) = [] /\
+  blocked (core s3) = 1 /\ pending (core s3) = 1 /\ fates (core s3) = [(1%nat, FDiscarded)] /\ delivered (core s3) = [] /\
+  acc s3 = [1; 2] /\ drp s3 = [] /\ hs s3 = [] /\ map (dsp s3) registered = [DHandler; DHandler; DHandler] /\
+  idle s4 = true /\ blocked (core s4) = 1 /\ pending (core s4) = 1 /\ delivered (core s4) = [].
+Proof.
+  cbv zeta. split; [constructor; reflexivity|].
+  split; [reflexivity|]. split; [reflexivity|]. split; [reflexivity|]. split; [reflexivity|].
+  split; [apply oreach_oexec; constructor; reflexivity|].
+  split; [vm_compute; repeat split; try reflexivity; discriminate|].
+  vm_compute. repeat split; reflexivity.
+Qed.
+
+(* the same run as the harness prints it (case -1 0 1 10 0 0 1 0 0 0 0 2: first main(), flow [run() throws], decisions: increment,
+   signal 1 inside the report, its four steps, signal 2 inside the report, ...): records "16 1 p" = inside the error report with
+   blocked_ = 1, never a record "20 s" (callback entry) *)
+Example c18_os_shutdown_error_smoke :
+  Disp.run_case [-1; 0; 1; 10; 0; 0; 1; 0; 0; 0; 0; 2] =
+    [7; 0; 0; 40; 1; 1; 1; 0; 1;   16; 1; 0; 40; 1; 1; 1; 0; 1; 30; 1;
+     1; 1; 0; 40; 2; 1; 1; 0; 1;   4; 2; 0; 40; 2; 1; 1; 0; 1;   5; 2; 0; 40; 2; 1; 1; 0; 1;   6; 2; 1; 40; 2; 1; 1; 0; 1;
+     16; 1; 1; 40; 1; 1; 1; 0; 1; 30; 2;
+     1; 1; 1; 40; 1; 2; 1; 0; 1;   4; 2; 1; 40; 1; 2; 1; 0; 1;   6; 2; 1; 40; 1; 2; 1; 0; 1;
+     16; 1; 1; 40; 1; 1; 1; 0; 1;   0; 1; 1; 40; 1; 1; 1; 0; 1;   41; 1; 1; 1; 0; 1;   42; 0].
+Proof. vm_compute. reflexivity. Qed.
+
+(* the order of the statements of shutdown(bool) and main()'s two calls of it, as the translator (tools/consts/C18.py) finds them:
+   the block is taken before the error report runs - what the decoding of op 10 (increment, then report) is written for *)
+Theorem c18_shutdown_model_uses_code_constants :
+  (decode_fops [10] = [FCore Block; FReport] <-> Consts_C18.shutdown_blocks_before_report = true) /\
+  Consts_C18.main_error_path_is_shutdown_true = true.
+Proof. split; [split; intro; reflexivity | reflexivity]. Qed.
+Print Assumptions c18_shutdown_model_uses_code_constants.
